@@ -36,12 +36,17 @@ class Fixture:
             m = self.make_input(kind)
             t = TxIn(bytes(rng.randrange(256) for _ in range(32)), rng.choice([0, 1, 7, 0xFFFFFFFF, rng.randrange(2 ** 32)]),
                      Script(list(m["script_sig"])), rng.choice([0xFFFFFFFF, 0xFFFFFFFE, 0, 5, 0x80000001, rng.randrange(2 ** 32)]))
-            t.witness = Witness(list(m["witness"]))
+            if m["witness"]:
+                t.witness = Witness(list(m["witness"]))
+            # else: keep the witness TxIn.__init__ gave the input (a spend that has not been signed yet)
             t._value = m["amount"]
             t._script_pubkey = Script(list(m["spk"]))
             tins.append(t)
             self.kinds.append(kind)
             self.meta.append(m)
+        # the harness' own model of every input's witness stack: edits go to the model and to the object, the specification
+        # is evaluated on the model (an in-place edit of one input must leave the other inputs as they were built)
+        self.wit_model = [list(m["witness"]) for m in self.meta]
         touts = [TxOut(self.rand_amount(), Script(self.rand_spk())) for _ in range(nout)]
         self.tx = Tx(rng.choice([1, 2, 2, 0xFFFFFFFF]), tins, touts, rng.choice([0, 0, 500000000, 0xFFFFFFFF, rng.randrange(2 ** 32)]),
                      segwit=True)
@@ -117,7 +122,7 @@ class Fixture:
     def snapshot(self):
         tx = self.tx
         ins = [{"txid": B(i.prev_tx), "idx": B(int(i.prev_index).to_bytes(4, "little")), "script": jscript(i.script_sig.commands),
-                "seq": B(int(i.sequence).to_bytes(4, "little")), "wit": [B(x) for x in i.witness.items]} for i in tx.tx_ins]
+                "seq": B(int(i.sequence).to_bytes(4, "little")), "wit": [B(x) for x in self.wit_model[n]]} for n, i in enumerate(tx.tx_ins)]
         outs = [{"amount": B(int(o.amount).to_bytes(8, "little")), "script": jscript(o.script_pubkey.commands)} for o in tx.tx_outs]
         j = {"version": B(int(tx.version).to_bytes(4, "little")), "ins": ins, "outs": outs,
              "locktime": B(int(tx.locktime).to_bytes(4, "little")), "segwit": True}
@@ -163,10 +168,18 @@ class Fixture:
             cand = [i for i, kd in enumerate(self.kinds) if kd.startswith("p2tr")]
             k = r.choice(cand)
             w = tx.tx_ins[k].witness.items
-            if len(w) >= 2 and w[-1][:1] == b"\x50":
+            wm = self.wit_model[k]
+            if len(wm) >= 2 and wm[-1][:1] == b"\x50":
                 w.pop()
-            elif len(w) >= 1:
-                w.append(b"\x50" + self.rb(r.choice([0, 1, 64])))
+                wm.pop()
+            elif len(wm) >= 1:
+                ax = b"\x50" + self.rb(r.choice([0, 1, 64]))
+                w.append(ax)
+                wm.append(ax)
+            else:                                   # unsigned key-path input: sign in place (signature + annex), as finalize_* helpers do
+                items = [self.rb(64), b"\x50" + self.rb(r.choice([0, 2]))]
+                w.extend(items)
+                wm.extend(items)
         return what
 
     def query(self, cid):
@@ -213,7 +226,7 @@ class Fixture:
             call = (lambda: tx.sig_hash_bip143(k, red, wsc, ht)) if mode == "direct" else (lambda: tx.sig_hash(k, ht))
         else:
             case["alg"] = "bip341"
-            w = tx.tx_ins[k].witness.items
+            w = self.wit_model[k]
             has_annex = len(w) >= 2 and w[-1][:1] == b"\x50"
             nitems = len(w) - (1 if has_annex else 0)
             if kind == "p2tr-script":
@@ -335,7 +348,7 @@ def run(ctx):
     if ctx.want("histories"):
         depth = 4 if q else 5
         snaps, results, nq = model_histories(ctx, rng, depth)
-        got = ctx.validate("sighash/C05Cases.tla", list(snaps.values()), "C05Cases.cfg", timeout=3000, per_shard_min=10)
+        got = ctx.validate("sighash/C05Cases.tla", list(snaps.values()), "C05Cases.cfg", timeout=7200, per_shard_min=10)
         byid = {v["id"]: k for k, v in snaps.items()}
         for cid, e in got.items():
             key = byid[cid]
@@ -377,7 +390,7 @@ def run(ctx):
             cmeta[c["id"]] = c
             send.append({k: (B(v) if isinstance(v, (bytes, bytearray)) else v) for k, v in c.items()
                          if k in ("id", "alg", "idx", "ht", "kind", "redeem", "wscript", "sc", "ext", "leafver", "leafscript", "tx", "spent")})
-        got = ctx.validate("sighash/C05Cases.tla", send, "C05Cases.cfg", timeout=3000, per_shard_min=10)
+        got = ctx.validate("sighash/C05Cases.tla", send, "C05Cases.cfg", timeout=7200, per_shard_min=10)
         for cid, e in got.items():
             c = cmeta[cid]
             nouts = len(c["tx"]["outs"])
